@@ -31,7 +31,7 @@ def _method(p: Program, ci: ClassInfo, name: str) -> FuncInfo:
 _PROGRAM = {}
 
 
-def expanded(fi: FuncInfo, depth: int = 3) -> List[ast.AST]:
+def expanded(fi: FuncInfo, depth: int = 3, imported: bool = False) -> List[ast.AST]:
     """The method's own tree plus the trees of the helpers of the same class
     (self._x(...), cls._x(...)) and of the same module (_x(...)) it calls:
     extracting a helper does not hide what a method does."""
@@ -52,6 +52,29 @@ def expanded(fi: FuncInfo, depth: int = 3) -> List[ast.AST]:
                     _, g = p.class_attr_def(f.owner, n.func.attr)
                 elif isinstance(n.func, ast.Name):
                     g = f.module.functions.get(n.func.id)
+                    if g is None:
+                        # a helper imported from a sibling module of the registry package, or a small value class of the
+                        # module (its methods and properties are part of what the method does)
+                        try:
+                            r_ = p.resolve_expr(f.module, n.func)
+                        except Exception:
+                            r_ = None
+                        if isinstance(r_, FuncInfo) and r_.module.name.startswith("moclo.registry") and imported:
+                            g = r_
+                        elif isinstance(r_, ClassInfo) and r_.module.name.startswith("moclo.registry") and r_.name.startswith("_"):
+                            for m_ in r_.attrs.values():
+                                if isinstance(m_, FuncInfo):
+                                    todo.append((m_, d - 1))
+                elif isinstance(n.func, ast.Attribute) and isinstance(n.func.value, ast.Name):
+                    # _Value.of(...): an alternative constructor of such a value class
+                    try:
+                        r_ = p.resolve_expr(f.module, n.func.value)
+                    except Exception:
+                        r_ = None
+                    if isinstance(r_, ClassInfo) and r_.module.name.startswith("moclo.registry") and r_.name.startswith("_"):
+                        for m_ in r_.attrs.values():
+                            if isinstance(m_, FuncInfo):
+                                todo.append((m_, d - 1))
                 if isinstance(g, FuncInfo):
                     todo.append((g, d - 1))
             elif isinstance(n, ast.Attribute) and isinstance(n.value, ast.Name) and n.value.id == "self" and f.owner is not None:
@@ -61,14 +84,14 @@ def expanded(fi: FuncInfo, depth: int = 3) -> List[ast.AST]:
     return out
 
 
-def xwalk(fi: FuncInfo):
-    for tree in expanded(fi):
+def xwalk(fi: FuncInfo, imported: bool = False):
+    for tree in expanded(fi, imported=imported):
         for n in ast.walk(tree):
             yield n
 
 
-def xsrc(fi: FuncInfo) -> str:
-    return " ".join(_src(fi, t) if t is fi.node else re.sub(r"\s+", " ", ast.unparse(t)) for t in expanded(fi))
+def xsrc(fi: FuncInfo, imported: bool = False) -> str:
+    return " ".join(_src(fi, t) if t is fi.node else re.sub(r"\s+", " ", ast.unparse(t)) for t in expanded(fi, imported=imported))
 
 
 def _calls(fn, attr: str) -> List[ast.Call]:
@@ -84,6 +107,53 @@ def _resolve_alias(fn_nodes, e: ast.expr) -> ast.expr:
         if len(defs) == 1:
             return defs[0]
     return e
+
+
+def _archive_args(p: Program, fi: FuncInfo, depth: int = 3) -> List[str]:
+    """the arguments (as written from fi's point of view) of the pkg_resources.resource_stream call fi makes, itself or
+    through a helper it hands them to (the helper's parameters are replaced by what fi passes)"""
+    own = [n for n in ast.walk(fi.node) if isinstance(n, ast.Call) and isinstance(n.func, ast.Attribute) and n.func.attr == "resource_stream"]
+    if own:
+        return [ast.unparse(a) for c in own for a in c.args]
+    if depth <= 0:
+        return []
+    for n in ast.walk(fi.node):
+        if not isinstance(n, ast.Call):
+            continue
+        g, off = None, 0
+        if isinstance(n.func, ast.Attribute) and isinstance(n.func.value, ast.Name) and n.func.value.id in ("self", "cls") and fi.owner is not None:
+            _, g = p.class_attr_def(fi.owner, n.func.attr)
+            off = 0 if isinstance(g, FuncInfo) and g.kind == "staticmethod" else 1
+        elif isinstance(n.func, ast.Name):
+            try:
+                g = p.resolve_expr(fi.module, n.func)
+            except Exception:
+                g = None
+        elif isinstance(n.func, ast.Attribute) and isinstance(n.func.value, ast.Name) and n.func.value.id == "self" and fi.owner is not None:
+            _, g = p.class_attr_def(fi.owner, n.func.attr)
+        if not isinstance(g, FuncInfo) or g is fi:
+            continue
+        inner = _archive_args(p, g, depth - 1)
+        if not inner:
+            continue
+        gps = [a.arg for a in g.node.args.posonlyargs + g.node.args.args]
+        actual = {}
+        for i, a in enumerate(n.args):
+            if i + off < len(gps):
+                actual[gps[i + off]] = ast.unparse(a)
+        for k in n.keywords:
+            if k.arg:
+                actual[k.arg] = ast.unparse(k.value)
+        return [actual.get(x, x) for x in inner]
+    # a property / attribute read of the class that opens the archive (self._archive)
+    for n in ast.walk(fi.node):
+        if isinstance(n, ast.Attribute) and isinstance(n.value, ast.Name) and n.value.id == "self" and fi.owner is not None:
+            _, g = p.class_attr_def(fi.owner, n.attr)
+            if isinstance(g, FuncInfo) and g is not fi and g.kind == "property":
+                inner = _archive_args(p, g, depth - 1)
+                if inner:
+                    return inner
+    return []
 
 
 def _key_names(gi: FuncInfo) -> Set[str]:
@@ -120,6 +190,24 @@ def _is_stem_expr(trees, e: ast.expr, opened: List[str], keys: Set[str], depth: 
         return _is_stem_expr(trees, e.args[0], opened, keys, depth + 1)
     if isinstance(e, ast.Subscript) and isinstance(e.slice, ast.Constant) and e.slice.value == 0 and _is_splitext_of(e.value, opened):
         return True
+    if isinstance(e, ast.Attribute) and isinstance(e.value, ast.Name):
+        # <value object>.stem where the file opened is <value object>.filename and stem is a property computing
+        # splitext(self.filename)[0]
+        p = _PROGRAM.get("p")
+        mods = {id(t): None for t in trees}
+        for o in opened:
+            if o.startswith(e.value.id + "."):
+                fld = o[len(e.value.id) + 1:]
+                for m in (p.modules.values() if p is not None else []):
+                    if not m.name.startswith("moclo.registry"):
+                        continue
+                    for ci in m.classes.values():
+                        prop = ci.attrs.get(e.attr)
+                        if isinstance(prop, FuncInfo) and prop.kind == "property":
+                            rets = [n for n in ast.walk(prop.node) if isinstance(n, ast.Return) and n.value is not None]
+                            me = prop.node.args.args[0].arg if prop.node.args.args else "self"
+                            if rets and all(_is_stem_expr([prop.node], r_.value, ["%s.%s" % (me, fld)], set(), depth + 1) for r_ in rets):
+                                return True
     if isinstance(e, ast.Name):
         # a local: every binding must be a stem expression (first element of `stem, ext = splitext(opened)`)
         binds = []
@@ -271,12 +359,27 @@ def registry_rules(ctx, rule: str):
     for nd in ast.walk(add.node):
         for ch in ast.iter_child_nodes(nd):
             parents[id(ch)] = nd
+    # a writer may sit in a helper add_registry calls once per item: self._adopt(item)
+    def per_item_helper(raw):
+        if raw is add or not raw.node.args.args or len(raw.node.args.args) != 2:
+            return False
+        calls = [n for n in ast.walk(add.node) if isinstance(n, ast.Call) and isinstance(n.func, ast.Attribute) and n.func.attr == raw.name
+                 and isinstance(n.func.value, ast.Name) and n.func.value.id == "self"]
+        others = [m for m in comb.attrs.values() if isinstance(m, FuncInfo) and m is not add and m is not raw and any(
+            isinstance(n, ast.Call) and isinstance(n.func, ast.Attribute) and n.func.attr == raw.name for n in ast.walk(m.node))]
+        if len(calls) != 1 or others or len(calls[0].args) != 1 or not isinstance(calls[0].args[0], ast.Name):
+            return False
+        # called on the loop variable of the loop over the member's values
+        loop = parents.get(id(parents.get(id(calls[0]))))
+        return isinstance(loop, ast.For) and isinstance(loop.target, ast.Name) and loop.target.id == calls[0].args[0].id
+
     for raw, kind, node in writers:
-        ok = raw is add and kind == "setdefault"
+        in_add = raw is add or per_item_helper(raw)
+        ok = in_add and kind == "setdefault"
         if ok:
             a = node.args
             ok = len(a) == 2 and _src(raw, a[0]).endswith(".id") and isinstance(a[1], ast.Name) and _src(raw, a[0]).split(".")[0] == a[1].id
-        elif raw is add and kind == "subscript-store":
+        elif in_add and kind == "subscript-store":
             # if item.id not in self._data: self._data[item.id] = item
             key = node.targets[0].slice
             g = parents.get(id(node))
@@ -296,10 +399,10 @@ def registry_rules(ctx, rule: str):
     upd = [n for _f, k_, n in writers if _f is add and k_ == "update"]
     if not loops and len(upd) == 1 and _filtered_pairs(add, upd[0]) is not None:
         comp = _filtered_pairs(add, upd[0])
-        okc = _src(add, comp.generators[0].iter).replace(" ", "") in ("six.itervalues(registry)", "itervalues(registry)", "registry.values()", "list(registry.values())")
+        okc = ast.unparse(_resolve_alias([add.node], comp.generators[0].iter)).replace(" ", "") in ("six.itervalues(registry)", "itervalues(registry)", "registry.values()", "list(registry.values())")
         r.ob(rule + ".combined-union", add.qualname, okc, "add_registry must visit every item of the member: `%s`" % _src(add, comp), add.where())
         loops = None
-    ok = loops is not None and len(loops) == 1 and _src(add, loops[0].iter).replace(" ", "") in ("six.itervalues(registry)", "itervalues(registry)", "registry.values()", "list(registry.values())") and not any(
+    ok = loops is not None and len(loops) == 1 and ast.unparse(_resolve_alias([add.node], loops[0].iter)).replace(" ", "") in ("six.itervalues(registry)", "itervalues(registry)", "registry.values()", "list(registry.values())") and not any(
         isinstance(n, (ast.Break, ast.Continue)) for n in ast.walk(loops[0])) and all(
         isinstance(g.test, ast.Compare) and isinstance(g.test.ops[0], ast.NotIn) and _src(add, g.test.comparators[0]) == "self._data" for g in guards)
     if loops is not None:
@@ -369,7 +472,7 @@ def registry_rules(ctx, rule: str):
                 and ast.unparse(n.args[0].func) in ("operator.attrgetter", "attrgetter") and len(n.args[0].args) == 1 \
                 and isinstance(n.args[0].args[0], ast.Constant) and n.args[0].args[0].value == "name":
             elts.append(ast.Attribute(value=ast.Name(id="member", ctx=ast.Load()), attr="name", ctx=ast.Load()))
-    ok = ("tar" in xsrc(it) and not any(isinstance(n, ast.If) for n in ast.walk(it.node)) and bool(elts)
+    ok = ("tar" in xsrc(it, imported=True) and not any(isinstance(n, ast.If) for n in ast.walk(it.node)) and bool(elts)
           and all(isinstance(x, ast.Attribute) and x.attr == "name" and isinstance(x.value, ast.Name) for x in elts))
     ok = ok or _returns_only(it, ("iter(self._data)", "iter(self._data.keys())"))
     r.ob(rule + ".embedded-siblings", it.qualname, ok, "iteration must yield every archive member name", it.where())
@@ -379,9 +482,9 @@ def registry_rules(ctx, rule: str):
     rets = [n for n in ast.walk(gi.node) if isinstance(n, ast.Return)]
     ok = len(rets) == 1 and _src(gi, rets[0].value) == "self._data[item]"
     r.ob(rule + ".embedded-siblings", gi.qualname, ok, "lookup must be the table built from the archive (KeyError when absent)", gi.where())
-    files_da = [ast.unparse(a) for c in _calls(data, "resource_stream") for a in c.args]
-    files_it = [ast.unparse(a) for c in _calls(it, "resource_stream") for a in c.args] or files_da
-    files_ln = [ast.unparse(a) for c in _calls(ln, "resource_stream") for a in c.args] or files_da
+    files_da = _archive_args(p, data)
+    files_it = _archive_args(p, it) or files_da
+    files_ln = _archive_args(p, ln) or files_da
     r.ob(rule + ".embedded-siblings", emb.qualname + "#archive", files_it == files_ln == files_da and bool(files_it),
          "iteration, length and lookup must read the same archive: %s / %s / %s" % (files_it, files_ln, files_da), emb.where())
     # every concrete embedded registry keeps these three (no override that breaks the agreement)
@@ -542,8 +645,9 @@ def table_value_returns(p: Program, fi: FuncInfo, table: str, depth: int = 3) ->
                      "six.viewkeys(%s)" % table, "six.iterkeys(%s)" % table, "%s.__contains__" % table)
 
     class Env(object):
-        def __init__(self, fn: ast.FunctionDef, depth: int):
+        def __init__(self, fn: ast.FunctionDef, depth: int, param_kinds: Optional[Dict[str, str]] = None):
             self.fn, self.depth = fn, depth
+            param_kinds = param_kinds or {}
             self.kinds: Dict[str, str] = {}
             self.parents = {}
             for n in ast.walk(fn):
@@ -557,7 +661,7 @@ def table_value_returns(p: Program, fi: FuncInfo, table: str, depth: int = 3) ->
                     for name, kind in self.bindings(n):
                         new[name] = kind if new.get(name, kind) == kind else _OTHER
                 for a in fn.args.posonlyargs + fn.args.args + fn.args.kwonlyargs:
-                    new[a.arg] = _OTHER
+                    new[a.arg] = param_kinds.get(a.arg, _OTHER)  # what the (only) caller hands in
                 if new == self.kinds:
                     break
                 self.kinds = new
@@ -704,8 +808,8 @@ def table_value_returns(p: Program, fi: FuncInfo, table: str, depth: int = 3) ->
                             return ks.pop()
             return _OTHER
 
-    def complaints(fn: ast.FunctionDef, depth: int) -> List[str]:
-        env = Env(fn, depth)
+    def complaints(fn: ast.FunctionDef, depth: int, param_kinds=None) -> List[str]:
+        env = Env(fn, depth, param_kinds)
         out = []
         rets = [n for n in ast.walk(fn) if isinstance(n, ast.Return)]
         if not rets:
@@ -727,7 +831,19 @@ def table_value_returns(p: Program, fi: FuncInfo, table: str, depth: int = 3) ->
             elif isinstance(v, ast.Call) and isinstance(v.func, ast.Name) and depth > 0:
                 callee = p.resolve_expr(mod, v.func)
                 if isinstance(callee, FuncInfo) and callee.owner is None:
-                    out.extend(complaints(callee.node, depth - 1))
+                    # the helper is judged with what this call hands it (sound only if nobody else calls it)
+                    others = [c for m_ in p.modules.values() if m_.name.startswith("moclo") for c in ast.walk(m_.tree)
+                              if isinstance(c, ast.Call) and isinstance(c.func, ast.Name) and c.func.id == callee.name and c is not v]
+                    pk = {}
+                    if not others:
+                        ps = [a.arg for a in callee.node.args.posonlyargs + callee.node.args.args]
+                        for i, a in enumerate(v.args):
+                            if i < len(ps):
+                                pk[ps[i]] = env.kind(a)
+                        for kw in v.keywords:
+                            if kw.arg:
+                                pk[kw.arg] = env.kind(kw.value)
+                    out.extend(complaints(callee.node, depth - 1, pk))
                     continue
             if key is None:
                 out.append("line %d: returns `%s`, not a read of %s" % (n.lineno, ast.unparse(n.value) if n.value is not None else "None", table))
